@@ -213,6 +213,7 @@ pub fn run(_tier: &str) -> Vec<Grid> {
     }
     let next = AtomicUsize::new(0);
     let out = std::sync::Mutex::new(vec![]);
+    vrt::crash::idle(); // waiting on child processes is not a hang
     std::thread::scope(|sc| {
         for _ in 0..16 {
             sc.spawn(|| loop {
@@ -278,6 +279,7 @@ pub fn run(_tier: &str) -> Vec<Grid> {
     }
     let next = AtomicUsize::new(0);
     let out = std::sync::Mutex::new(vec![]);
+    vrt::crash::idle(); // waiting on child processes is not a hang
     std::thread::scope(|sc| {
         for _ in 0..16 {
             sc.spawn(|| loop {
